@@ -2,7 +2,38 @@ import OdlModel.Common
 import OdlModel.Model.Functionals
 import OdlModel.Model.FunctionalsWire
 import OdlModel.Model.FunctionalsProx
-open OdlModel OdlModel.Functionals
+import OdlModel.Model.FunctionalsSep
+open OdlModel OdlModel.Functionals OdlModel.FunctionalsLeaves
+
+/-- The parts `w<i>= f<i>= x<i>= d<i>=` (i < k) of a `sepfy` line (`d<i>` = the part of the dual
+argument `y`). -/
+def parseParts (l : Line) : Nat → Nat → Option (List (SepPart Rat))
+  | _, 0 => some []
+  | i, k + 1 => do
+      let w ← l.rats? s!"w{i}"
+      if w.isEmpty then none
+      let fs ← l.get? s!"f{i}"
+      let (f, rest) ← parseFn w.length true 64 (fs.splitOn "|")
+      if !rest.isEmpty then none
+      let x ← vecArg l s!"x{i}" w.length
+      let d ← vecArg l s!"d{i}" w.length
+      let r ← parseParts l (i + 1) k
+      some (⟨w, f, x, d⟩ :: r)
+
+def showSepValue (ps : List (SepPart Rat)) : String :=
+  if !(sepEvaluable ps) then "noeval" else if !(sepDom ps) then "inf" else showRat (sepValue ps)
+
+/-- `sepfy k=<parts> w0= f0= x0= d0= w1= …` → `ok fx=… gy=… xy=… s=<skeletons of the conjugate
+parts joined by +>` | `noconj`   (SeparableSum: f(x), f.convex_conj(y), <x, y>) -/
+def handleSep (l : Line) : Option String := do
+  let k ← l.nat? "k"
+  if k = 0 then none
+  let ps ← parseParts l 0 k
+  match sepConj ps with
+  | none => some "noconj"
+  | some qs =>
+      let sk := "+".intercalate (qs.map fun q => "|".intercalate q.f.skel)
+      some s!"ok fx={showSepValue ps} gy={showSepValue qs} xy={showRat (sepInner ps (sepArg ps) (sepDir ps))} s={sk}"
 
 /-- `val f=<expr> w=<weights> x=<vec>`        → `ok v=<rat|inf|noeval>`          (f(x))
     `conjval f=… w=… x=…`                    → `ok v=…` | `noconj`               (f.convex_conj(x))
@@ -13,6 +44,7 @@ open OdlModel OdlModel.Functionals
         (p1 = f.proximal(σ)(x), p2 = f.convex_conj.proximal(1/σ)(x/σ), lhs = p1 + σ p2;
          lamf = the fudged radius of proximal_convex_conj_l1) -/
 def handle (l : Line) : Option String := do
+  if l.op = "sepfy" then handleSep l else
   let (o, f, n) ← parseCase l true
   let x ← vecArg l "x" n
   match l.op with
